@@ -20,18 +20,19 @@ pub struct Config {
     pub gate_fs: bool,
     pub sort_peeks: bool,
     pub peek_join: bool,
+    pub peek_cands: bool,
     pub render: bool,
 }
 
 impl Default for Config {
-    fn default() -> Self { Config { mode: "sync".into(), sched: "fifo".into(), cancel: None, cancel_call: None, transient: false, activity: None, gate_fs: false, sort_peeks: false, peek_join: false, render: true } }
+    fn default() -> Self { Config { mode: "sync".into(), sched: "fifo".into(), cancel: None, cancel_call: None, transient: false, activity: None, gate_fs: false, sort_peeks: false, peek_join: false, peek_cands: false, render: true } }
 }
 
 impl Config {
     pub fn to_line(&self) -> String {
-        format!("config mode {} sched {} cancel {} transient {} activity {} gatefs {} sortpeeks {} peekjoin {} render {}",
+        format!("config mode {} sched {} cancel {} transient {} activity {} gatefs {} sortpeeks {} peekjoin {} peekcands {} render {}",
             self.mode, self.sched, self.cancel.map(|c| c.to_string()).or(self.cancel_call.map(|c| format!("c{c}"))).unwrap_or("-".into()), self.transient as u8,
-            self.activity.map(|(a, d)| format!("{a}:{d}")).unwrap_or("-".into()), self.gate_fs as u8, self.sort_peeks as u8, self.peek_join as u8, self.render as u8)
+            self.activity.map(|(a, d)| format!("{a}:{d}")).unwrap_or("-".into()), self.gate_fs as u8, self.sort_peeks as u8, self.peek_join as u8, self.peek_cands as u8, self.render as u8)
     }
     pub fn from_line(l: &str) -> Config {
         let t: Vec<&str> = l.split(' ').filter(|s| !s.is_empty()).collect();
@@ -47,6 +48,7 @@ impl Config {
                 "gatefs" => c.gate_fs = t[i + 1] == "1",
                 "sortpeeks" => c.sort_peeks = t[i + 1] == "1",
                 "peekjoin" => c.peek_join = t[i + 1] == "1",
+                "peekcands" => c.peek_cands = t[i + 1] == "1",
                 "render" => c.render = t[i + 1] == "1",
                 _ => {}
             }
@@ -99,7 +101,7 @@ pub fn gen_cancel_case(rng: &mut Rng) -> Vec<String> {
 /// filter/sort too) under a seeded schedule; the plan is drawn from the uncancelled run *under the same schedule*.
 pub fn gen_cancel_async_case(rng: &mut Rng) -> Vec<String> {
     let kind = *rng.pick(&[Kind::General, Kind::Tight, Kind::Hints, Kind::Soft, Kind::Lazy]);
-    let g = gen::generate(rng, kind);
+    let g = if rng.chance(1, 20) { let (u, p) = gen_big_union(rng); gen::Generated { u, p } } else { gen::generate(rng, kind) };
     let mut lines = g.u.to_lines();
     lines.push(g.p.to_line());
     let mut cfg = Config { render: false, mode: "async".into(), ..Config::default() };
@@ -109,6 +111,7 @@ pub fn gen_cancel_async_case(rng: &mut Rng) -> Vec<String> {
     // inside the provider overlap with the encoder's own; a refused request makes the provider drop the others)
     cfg.sort_peeks = rng.chance(1, 3);
     cfg.peek_join = cfg.sort_peeks && rng.chance(2, 3);
+    cfg.peek_cands = cfg.peek_join && rng.chance(1, 2);
     let mut probe = lines.clone();
     probe.push(cfg.to_line());
     let out = run_case(&probe);
@@ -250,20 +253,118 @@ pub fn gen_reuse_case(rng: &mut Rng, async_mode: bool) -> Vec<String> {
     lines
 }
 
+/// A root requirement that is a union of 31..40 version sets over two packages (members of the two packages interleaved),
+/// whose candidates have dependencies of their own: `futures::future::try_join_all` changes its implementation above 30
+/// members, and every requirement future of the encoder is such a join.
+pub fn gen_big_union(rng: &mut Rng) -> (Universe, Problem) {
+    let mut u = Universe::default();
+    let mut next_s = 0u32;
+    let mut cands: Vec<Vec<u32>> = Vec::new();
+    for name in 0..2u32 {
+        let k = rng.range(3, 5) as u32;
+        let cs: Vec<u32> = (0..k).map(|j| next_s + j).collect();
+        next_s += k;
+        u.pkgs.insert(name, Pkg { cands: cs.clone(), ..Default::default() });
+        cands.push(cs);
+    }
+    // packages 2, 3: what the candidates of 0 / 1 depend on; package 4: an independent root requirement
+    for name in 2..5u32 {
+        let k = rng.range(1, 3) as u32;
+        let cs: Vec<u32> = (0..k).map(|j| next_s + j).collect();
+        next_s += k;
+        u.pkgs.insert(name, Pkg { cands: cs.clone(), ..Default::default() });
+        for (j, &c) in cs.iter().enumerate() { u.solvs.insert(c, Solv { name, rank: j as u32, deps: Deps::Known { reqs: vec![], cons: vec![] } }); }
+        u.vsets.insert(100 + name, VSet { name, matching: cs.clone() });
+    }
+    for name in 0..2u32 {
+        for (j, &c) in cands[name as usize].iter().enumerate() {
+            u.solvs.insert(c, Solv { name, rank: j as u32, deps: Deps::Known { reqs: vec![Req::Single(102 + name)], cons: vec![] } });
+        }
+    }
+    let n_members = rng.range(31, 40) as u32;
+    let mut members: Vec<u32> = Vec::new();
+    for v in 0..n_members {
+        let name = if v < 2 { v } else { rng.below(2) as u32 };
+        let pool = &cands[name as usize];
+        let mut m: Vec<u32> = pool.iter().copied().filter(|_| rng.chance(1, 2)).collect();
+        if m.is_empty() { m.push(*rng.pick(pool)); }
+        u.vsets.insert(v, VSet { name, matching: m });
+        members.push(v);
+    }
+    rng.shuffle(&mut members);
+    u.unions.insert(0, members);
+    let mut p = Problem::default();
+    p.reqs.push(Req::Union(0));
+    if rng.chance(1, 2) { p.reqs.push(Req::Single(104)); }
+    if rng.chance(1, 2) { p.reqs.rotate_left(1); }
+    (u, p)
+}
+
+/// A provider that looks ahead meets package-level clauses: the root requires `p`; `p=0` requires `s1` .. `sk` (one
+/// candidate each, so they are selected and encoded together); some of them require `z`, whose *second* candidate depends
+/// on `c` (so a look-ahead of `sort_candidates` requests the candidates of `c` although the selected `z=0` never asks for
+/// them), another one requires `c` itself; `c` has an excluded (or locked-out) preferred candidate. Whatever the completion
+/// order, the package-level clauses of `c` must be added.
+pub fn gen_lookahead_excl(rng: &mut Rng) -> (Universe, Problem) {
+    let mut u = Universe::default();
+    let k = rng.range(2, 4) as u32;               // s1..sk : packages 1..=k
+    let z_name = k + 1;
+    let c_name = k + 2;
+    let mut next_s = 0u32;
+    // p
+    u.pkgs.insert(0, Pkg { cands: vec![0], ..Default::default() });
+    u.vsets.insert(0, VSet { name: 0, matching: vec![0] });
+    u.solvs.insert(0, Solv { name: 0, rank: 0, deps: Deps::Known { reqs: (1..=k).map(Req::Single).collect(), cons: vec![] } });
+    next_s += 1;
+    let direct = 1 + rng.below(k as u64) as u32;   // this s requires c directly, the others require z
+    for name in 1..=k {
+        let sv = next_s; next_s += 1;
+        u.pkgs.insert(name, Pkg { cands: vec![sv], ..Default::default() });
+        u.vsets.insert(name, VSet { name, matching: vec![sv] });
+        let reqs = if name == direct { vec![Req::Single(c_name)] } else { vec![Req::Single(z_name)] };
+        u.solvs.insert(sv, Solv { name, rank: 0, deps: Deps::Known { reqs, cons: vec![] } });
+    }
+    // z: the preferred candidate has no dependencies, the others depend on c
+    let nz = rng.range(2, 3) as u32;
+    let zs: Vec<u32> = (0..nz).map(|j| next_s + j).collect();
+    next_s += nz;
+    u.pkgs.insert(z_name, Pkg { cands: zs.clone(), ..Default::default() });
+    u.vsets.insert(z_name, VSet { name: z_name, matching: zs.clone() });
+    for (j, &z) in zs.iter().enumerate() {
+        let reqs = if j == 0 { vec![] } else { vec![Req::Single(c_name)] };
+        u.solvs.insert(z, Solv { name: z_name, rank: j as u32, deps: Deps::Known { reqs, cons: vec![] } });
+    }
+    // c
+    let nc = rng.range(2, 3) as u32;
+    let cs: Vec<u32> = (0..nc).map(|j| next_s + j).collect();
+    let mut pk = Pkg { cands: cs.clone(), ..Default::default() };
+    if rng.chance(2, 3) { pk.excluded.push((cs[0], 0)); } else { pk.locked = Some(cs[1]); }
+    u.pkgs.insert(c_name, pk);
+    u.vsets.insert(c_name, VSet { name: c_name, matching: cs.clone() });
+    for (j, &c) in cs.iter().enumerate() { u.solvs.insert(c, Solv { name: c_name, rank: j as u32, deps: Deps::Known { reqs: vec![], cons: vec![] } }); }
+    let mut p = Problem::default();
+    p.reqs.push(Req::Single(0));
+    (u, p)
+}
+
 /// C10/C11: one solve with an asynchronous provider and a manual single-threaded executor.
 pub fn gen_async_case(rng: &mut Rng, conflict_free: bool) -> Vec<String> {
     let kind = if conflict_free { Kind::ConflictFree } else { *rng.pick(&[Kind::General, Kind::Tight, Kind::Hints, Kind::Soft, Kind::Lazy, Kind::ConflictFree]) };
-    let g = gen::generate(rng, kind);
+    let lookahead = !conflict_free && rng.chance(1, 15);
+    let g = if lookahead { let (u, p) = gen_lookahead_excl(rng); gen::Generated { u, p } }
+        else if !conflict_free && rng.chance(1, 30) { let (u, p) = gen_big_union(rng); gen::Generated { u, p } } else { gen::generate(rng, kind) };
     let mut lines = g.u.to_lines();
     lines.push(g.p.to_line());
     let mut cfg = Config { render: false, mode: "async".into(), ..Config::default() };
     cfg.sched = match rng.below(4) { 0 => "fifo".into(), 1 => "lifo".into(), _ => format!("rand:{}", rng.below(1 << 30)) };
+    if lookahead { cfg.sched = format!("rand:{}", rng.below(1 << 30)); }
     cfg.gate_fs = rng.chance(1, 3);
     cfg.activity = pick_activity(rng);
     // 1/5: a provider whose sort_candidates reads the candidates' dependencies through the SolverCache (as conda-style
     // providers do): its queries overlap with the solver's own outstanding requests (oracles only, not modelled)
-    cfg.sort_peeks = rng.chance(1, 5);
-    cfg.peek_join = cfg.sort_peeks && rng.chance(1, 2);
+    cfg.sort_peeks = lookahead || rng.chance(1, 3);
+    cfg.peek_join = lookahead || (cfg.sort_peeks && rng.chance(2, 3));
+    cfg.peek_cands = cfg.peek_join && (lookahead || rng.chance(1, 2));
     lines.push(cfg.to_line());
     lines
 }
@@ -408,6 +509,7 @@ pub fn run_case(lines: &[String]) -> Vec<String> {
     let mut provider = TableProvider::new(u);
     provider.sort_peeks_deps = cfg.sort_peeks;
     provider.sort_peeks_join = cfg.peek_join;
+    provider.sort_peeks_cands_only = cfg.peek_cands;
     *provider.cancel.borrow_mut() = CancelPlan { at: cfg.cancel, at_call: cfg.cancel_call, transient: cfg.transient };
     if cfg.mode == "async" {
         let gates = Rc::new(Gates::default());
